@@ -29,6 +29,45 @@ Lemma K_noc_copy_index : forall x, noc_copy_index x = x. Proof. reflexivity. Qed
 Lemma K_oc_plus_copy : forall x, oc_plus_copy x = x. Proof. reflexivity. Qed.
 Lemma K_oc_init_add : forall x, oc_init_add x = x. Proof. reflexivity. Qed.
 Lemma K_dsc_store_val : forall x, dsc_store_val x = x. Proof. reflexivity. Qed.
+(* statement-skeleton pins (translator `shapev`): the definitions exist only when the skeleton is the pinned one *)
+Lemma K_sh_make_dict_hash : sh_make_dict_hash = true. Proof. reflexivity. Qed.
+Lemma K_sh_make_dict_hash_value : sh_make_dict_hash_value = true. Proof. reflexivity. Qed.
+Lemma K_sh_datafields_get_joint_names : sh_datafields_get_joint_names = true. Proof. reflexivity. Qed.
+Lemma K_sh_dfs_and_check : sh_dfs_and_check = true. Proof. reflexivity. Qed.
+Lemma K_sh_dfs_or_check : sh_dfs_or_check = true. Proof. reflexivity. Qed.
+Lemma K_sh_config_from_yaml : sh_config_from_yaml = true. Proof. reflexivity. Qed.
+Lemma K_sh_config_from_dict : sh_config_from_dict = true. Proof. reflexivity. Qed.
+Lemma K_sh_configu_initu : sh_configu_initu = true. Proof. reflexivity. Qed.
+Lemma K_sh_config_set_ncpu : sh_config_set_ncpu = true. Proof. reflexivity. Qed.
+Lemma K_sh_config_enable_tracing : sh_config_enable_tracing = true. Proof. reflexivity. Qed.
+Lemma K_sh_config_disable_tracing : sh_config_disable_tracing = true. Proof. reflexivity. Qed.
+Lemma K_sh_config_set_enable_tracing : sh_config_set_enable_tracing = true. Proof. reflexivity. Qed.
+Lemma K_sh_config_set_wd : sh_config_set_wd = true. Proof. reflexivity. Qed.
+Lemma K_sh_config_set_internal_units : sh_config_set_internal_units = true. Proof. reflexivity. Qed.
+Lemma K_sh_config_get_wd : sh_config_get_wd = true. Proof. reflexivity. Qed.
+Lemma K_sh_ocu_initu : sh_ocu_initu = true. Proof. reflexivity. Qed.
+Lemma K_sh_oc_copy : sh_oc_copy = true. Proof. reflexivity. Qed.
+Lemma K_sh_oc_add : sh_oc_add = true. Proof. reflexivity. Qed.
+Lemma K_sh_ocu_addu : sh_ocu_addu = true. Proof. reflexivity. Qed.
+Lemma K_sh_oc_pop : sh_oc_pop = true. Proof. reflexivity. Qed.
+Lemma K_sh_nocu_initu : sh_nocu_initu = true. Proof. reflexivity. Qed.
+Lemma K_sh_noc_copy : sh_noc_copy = true. Proof. reflexivity. Qed.
+Lemma K_sh_noc_add : sh_noc_add = true. Proof. reflexivity. Qed.
+Lemma K_sh_noc_pop : sh_noc_pop = true. Proof. reflexivity. Qed.
+Lemma K_sh_nocucreate_obj_name_to_idx_dict : sh_nocucreate_obj_name_to_idx_dict = true. Proof. reflexivity. Qed.
+Lemma K_sh_noc_get_index_by_name : sh_noc_get_index_by_name = true. Proof. reflexivity. Qed.
+Lemma K_sh_nocu_getitemu : sh_nocu_getitemu = true. Proof. reflexivity. Qed.
+Lemma K_sh_nocu_containsu : sh_nocu_containsu = true. Proof. reflexivity. Qed.
+Lemma K_sh_noc_name_list : sh_noc_name_list = true. Proof. reflexivity. Qed.
+Lemma K_sh_pdfset_make_key : sh_pdfset_make_key = true. Proof. reflexivity. Qed.
+Lemma K_sh_pdfset_add_pdf : sh_pdfset_add_pdf = true. Proof. reflexivity. Qed.
+Lemma K_sh_pdfset_get_pdf : sh_pdfset_get_pdf = true. Proof. reflexivity. Qed.
+Lemma K_sh_pdfsetu_containsu : sh_pdfsetu_containsu = true. Proof. reflexivity. Qed.
+Lemma K_sh_dsc_add_datasets : sh_dsc_add_datasets = true. Proof. reflexivity. Qed.
+Lemma K_sh_dsc_remove_dataset : sh_dsc_remove_dataset = true. Proof. reflexivity. Qed.
+Lemma K_sh_dsc_get_dataset : sh_dsc_get_dataset = true. Proof. reflexivity. Qed.
+Lemma K_sh_mcu_initu : sh_mcu_initu = true. Proof. reflexivity. Qed.
+
 
 (* ------------------------------------------------------------------ *)
 (* ordered dictionaries *)
